@@ -818,3 +818,157 @@ fn rc_insertion_dead_target() { component_dispatch_dead_target(0) }
 #[kani::stub(<core::any::TypeId as crate::vh::PEq>::eq, crate::vh::stub_typeid_eq)]
 #[kani::unwind(4)]
 fn rc_mutation_dead_target() { component_dispatch_dead_target(1) }
+
+//-------------------------------------------------------------------------------------------------------------------
+// registration kernels (C01: one entry per registration, under the right kind and type, nothing else touched)
+//-------------------------------------------------------------------------------------------------------------------
+fn whole_list_is(list: &Vec<ReactorHandle>, ids: &[u8; 8], off: usize, k: usize, last: Option<u8>) -> bool
+{
+    let n = k + if last.is_some() { 1 } else { 0 };
+    if list.len() != n { return false; }
+    let mut ok = true;
+    let mut i = 0;
+    while i < k { if list[i].sys_command() != sysc(ids[off + i]) { ok = false; } i += 1; }
+    if let Some(l) = last { if list[k].sys_command() != sysc(l) { ok = false; } }
+    ok
+}
+
+/// which: 0 broadcast, 1 resource, 2 any-entity-event.  Pre-state: key A with `ka` entries, key B with `kb`; one
+/// registration for A (or for a type that has no key yet) must append exactly one entry at the END of exactly that list.
+fn register_list_kernel(which: u8, ka: usize, kb: usize, new_key: bool)
+{
+    let mut cache = ReactCache::default();
+    let mut ids = [0u8; 8];
+    let a = opt_list(TypeId::of::<EvA>(), ka, &mut ids, 0);
+    let b = opt_list(TypeId::of::<EvB>(), kb, &mut ids, 4);
+    match which
+    {
+        0 => put2(&mut cache.broadcast_reactors, a, b),
+        1 => put2(&mut cache.resource_reactors, a, b),
+        _ => put2(&mut cache.any_entity_event_reactors, a, b),
+    }
+    let newcomer = any_below(NSYS);      // may equal an id already registered: registrations are not merged
+    match (which, new_key)
+    {
+        (0, false) => cache.register_broadcast_reactor::<EvA>(persistent(newcomer)),
+        (0, true) => cache.register_broadcast_reactor::<CoA>(persistent(newcomer)),
+        (1, false) => cache.register_resource_mutation_reactor::<RsKeyA>(persistent(newcomer)),
+        (1, true) => cache.register_resource_mutation_reactor::<RsA>(persistent(newcomer)),
+        (_, false) => cache.register_any_entity_event_reactor::<EvA>(persistent(newcomer)),
+        (_, true) => cache.register_any_entity_event_reactor::<CoA>(persistent(newcomer)),
+    }
+    let table = match which { 0 => &cache.broadcast_reactors, 1 => &cache.resource_reactors, _ => &cache.any_entity_event_reactors };
+    let key_a = if which == 1 { TypeId::of::<RsKeyA>() } else { TypeId::of::<EvA>() };
+    if which == 1 && !new_key
+    {
+        // (resource lists are keyed by the resource type: the pre-state's key A is EvA, so RsKeyA is a fresh key)
+        assert!(table.get(&key_a).map(|l| l.len() == 1 && l[0].sys_command() == sysc(newcomer)).unwrap_or(false), "C01: a first registration creates the list with exactly that entry");
+        assert!(table.get(&TypeId::of::<EvA>()).map(|l| whole_list_is(l, &ids, 0, ka, None)).unwrap_or(ka == 0), "C01: other keys untouched");
+    }
+    else if new_key
+    {
+        let fresh = if which == 1 { TypeId::of::<RsA>() } else { TypeId::of::<CoA>() };
+        assert!(table.get(&fresh).map(|l| l.len() == 1 && l[0].sys_command() == sysc(newcomer)).unwrap_or(false), "C01: a first registration creates the list with exactly that entry");
+        assert!(table.get(&TypeId::of::<EvA>()).map(|l| whole_list_is(l, &ids, 0, ka, None)).unwrap_or(ka == 0), "C01: other keys untouched");
+    }
+    else
+    {
+        assert!(table.get(&key_a).map(|l| whole_list_is(l, &ids, 0, ka, Some(newcomer))).unwrap_or(false), "C01: one registration = exactly one new entry, at the end, earlier entries untouched (also when the same reactor is already registered)");
+    }
+    assert!(table.get(&TypeId::of::<EvB>()).map(|l| whole_list_is(l, &ids, 4, kb, None)).unwrap_or(kb == 0), "C01: other keys untouched");
+    let others_empty = match which
+    {
+        0 => cache.resource_reactors.m_len == 0 && cache.any_entity_event_reactors.m_len == 0,
+        1 => cache.broadcast_reactors.m_len == 0 && cache.any_entity_event_reactors.m_len == 0,
+        _ => cache.broadcast_reactors.m_len == 0 && cache.resource_reactors.m_len == 0,
+    };
+    assert!(others_empty && cache.component_reactors.m_len == 0 && cache.despawn_reactors.m_len == 0, "C01: a registration of one kind creates nothing under any other kind");
+    kani::cover!(true, "end of harness reached");
+    std::mem::forget(cache);
+}
+pub struct RsKeyA(pub u8);
+impl ReactResource for RsKeyA {}
+macro_rules! reg_list {
+    ($name:ident, $unwind:literal, $which:literal, $ka:literal, $kb:literal, $new:literal) => {
+        #[kani::proof]
+        #[kani::stub(core::any::TypeId::of, crate::vh::stub_typeid_of)]
+        #[kani::stub(<core::any::TypeId as crate::vh::PEq>::eq, crate::vh::stub_typeid_eq)]
+        #[kani::unwind($unwind)] fn $name() { register_list_kernel($which, $ka, $kb, $new) }
+    };
+}
+reg_list!(rc_register_broadcast_2_1, 4, 0, 2, 1, false);
+reg_list!(rc_register_broadcast_new_key, 4, 0, 1, 0, true);
+reg_list!(rc_register_resource_1_1, 4, 1, 1, 1, false);
+reg_list!(rc_register_any_event_2_0, 4, 2, 2, 0, false);
+
+/// component reactors: the three kinds share one map entry; a registration of one kind appends to exactly that list
+fn register_component_kernel(ki: usize, km: usize, kr: usize, kind: u8, existing: bool)
+{
+    let mut cache = ReactCache::default();
+    let mut ids = [0u8; 8];
+    if existing
+    {
+        let cr_a = ComponentReactors{
+            insertion_callbacks: handle_list(ki, &mut ids, 0),
+            mutation_callbacks: handle_list(km, &mut ids, 2),
+            removal_callbacks: handle_list(kr, &mut ids, 4),
+        };
+        put2(&mut cache.component_reactors, Some((TypeId::of::<CoA>(), cr_a)), None);
+    }
+    let newcomer = any_below(NSYS);
+    match kind
+    {
+        0 => cache.register_insertion_reactor::<CoA>(persistent(newcomer)),
+        1 => cache.register_mutation_reactor::<CoA>(persistent(newcomer)),
+        _ => cache.register_removal_reactor::<CoA>(persistent(newcomer)),
+    }
+    let (ki, km, kr) = if existing { (ki, km, kr) } else { (0, 0, 0) };
+    match cache.component_reactors.get(&TypeId::of::<CoA>())
+    {
+        Some(cr) =>
+        {
+            assert!(whole_list_is(&cr.insertion_callbacks, &ids, 0, ki, if kind == 0 { Some(newcomer) } else { None }), "C01: insertion list: changed iff an insertion reactor was registered, by exactly one entry at the end");
+            assert!(whole_list_is(&cr.mutation_callbacks, &ids, 2, km, if kind == 1 { Some(newcomer) } else { None }), "C01: mutation list: changed iff a mutation reactor was registered, by exactly one entry at the end");
+            assert!(whole_list_is(&cr.removal_callbacks, &ids, 4, kr, if kind == 2 { Some(newcomer) } else { None }), "C01: removal list: changed iff a removal reactor was registered, by exactly one entry at the end");
+        }
+        None => panic!("C01: the registration must be stored under the component's type"),
+    }
+    assert!(cache.component_reactors.m_len == 1 && cache.broadcast_reactors.m_len == 0 && cache.resource_reactors.m_len == 0 && cache.any_entity_event_reactors.m_len == 0 && cache.despawn_reactors.m_len == 0,
+        "C01: nothing is created under another type or kind");
+    kani::cover!(true, "end of harness reached");
+    std::mem::forget(cache);
+}
+macro_rules! reg_comp {
+    ($name:ident, $ki:literal, $km:literal, $kr:literal, $kind:literal, $ex:literal) => {
+        #[kani::proof]
+        #[kani::stub(core::any::TypeId::of, crate::vh::stub_typeid_of)]
+        #[kani::stub(<core::any::TypeId as crate::vh::PEq>::eq, crate::vh::stub_typeid_eq)]
+        #[kani::unwind(4)] fn $name() { register_component_kernel($ki, $km, $kr, $kind, $ex) }
+    };
+}
+reg_comp!(rc_register_insertion_1_1_1, 1, 1, 1, 0, true);
+reg_comp!(rc_register_mutation_1_1_1, 1, 1, 1, 1, true);
+reg_comp!(rc_register_removal_1_1_0, 1, 1, 0, 2, true);
+reg_comp!(rc_register_mutation_fresh, 0, 0, 0, 1, false);
+
+/// despawn reactors are keyed by the watched entity
+#[kani::proof]
+#[kani::stub(core::any::TypeId::of, crate::vh::stub_typeid_of)]
+#[kani::stub(<core::any::TypeId as crate::vh::PEq>::eq, crate::vh::stub_typeid_eq)]
+#[kani::unwind(4)]
+fn rc_register_despawn_by_entity()
+{
+    let mut cache = ReactCache::default();
+    let mut ids = [0u8; 8];
+    let ea = ent(30); let eb = ent(31);
+    put2(&mut cache.despawn_reactors, Some((ea, handle_list(1, &mut ids, 0))), Some((eb, handle_list(1, &mut ids, 4))));
+    let newcomer = any_below(NSYS);
+    let onto_b: bool = kani::any();
+    cache.register_despawn_reactor(if onto_b { eb } else { ea }, persistent(newcomer));
+    let la = cache.despawn_reactors.get(&ea).unwrap(); let lb = cache.despawn_reactors.get(&eb).unwrap();
+    assert!(whole_list_is(la, &ids, 0, 1, if onto_b { None } else { Some(newcomer) }) && whole_list_is(lb, &ids, 4, 1, if onto_b { Some(newcomer) } else { None }),
+        "C01/C08: a despawn registration is stored under exactly the watched entity, at the end of its list");
+    assert!(cache.despawn_reactors.m_len == 2 && cache.broadcast_reactors.m_len == 0 && cache.component_reactors.m_len == 0);
+    kani::cover!(onto_b, "second entity"); kani::cover!(!onto_b, "first entity");
+    std::mem::forget(cache);
+}
